@@ -3,7 +3,7 @@ From Coq Require Import List Bool ZArith Sorting.Permutation.
 From Coq Require Import Strings.Byte.
 From LLIR Require Import Lib.Bytes Model.Skeleton Proofs.SkeletonProofs.
 From LLIR Require Import Pipeline.MicroIR Pipeline.MicroIRResolve.
-From LLIR Require Gen.Printers Proofs.ErrorFlowProofs.
+From LLIR Require Gen.Printers Proofs.ErrorFlowProofs Proofs.ParserCacheProofs.
 Import ListNotations.
 
 (* module level (Model/Skeleton.v: the name-resolution skeleton of asm/translate.go, any number of
@@ -67,10 +67,11 @@ Example C05_typedef_after_opaque_refuted :
   is_ok (Skeleton.translate id_oracle (fun l => l) [mk NType nameA KOpaque []; mk NType nameA KPlain []]) = true.
 Proof. exact typedef_after_opaque_accepted. Qed.
 
-(* errors are reported, not swallowed, on the code as it is now: over the regenerated bodies of package asm (196:
-   type constructors, body translators of the 66 instruction and terminator kinds, of the constant expressions
-   and of the 28 debug-info nodes, enum converters) every statement that binds err is directly followed by
-   `if err != nil { .. }`, and the branch of every such check ends in a return or a panic -- so the error a lookup
+(* errors are reported, not swallowed, on the code as it is now: over the regenerated bodies of all 350 functions and
+   methods of package asm (type constructors, body translators of the 66 instruction and terminator kinds, of the
+   constant expressions and of the 28 debug-info nodes, enum converters, and the module, type, global, constant,
+   metadata and value translation with its helpers) every statement that binds err is directly followed by
+   `if err != nil { .. }` (or is the last statement of a switch case, the switch being directly followed by it), and the branch of every such check ends in a return or a panic -- so the error a lookup
    of an undefined name produces reaches the caller from every use site *)
 Theorem C05_errors_are_checked :
   forallb (fun p => Nat.eqb (ErrorFlowProofs.unchecked (Printers.p_body p)) 0) ErrorFlowProofs.asm_bodies = true.
@@ -78,3 +79,11 @@ Proof. exact ErrorFlowProofs.errors_are_checked. Qed.
 Theorem C05_errors_are_returned :
   forallb (fun p => Nat.eqb (List.length (flat_map ErrorFlowProofs.swallowed_s (Printers.p_body p))) 0) ErrorFlowProofs.asm_bodies = true.
 Proof. exact ErrorFlowProofs.errors_are_returned. Qed.
+
+(* the explicit crash sites of package asm are the 270 reviewed ones (187 bodies): the default branch of a type
+   switch over AST node kinds, the failed assertion on a scaffold object, and literal converters behind the
+   grammar.  KF-12 is one of them reached by a valid input; a new panic statement anywhere in the package, or one
+   that moves, changes the regenerated table *)
+Theorem C05_crash_sites_are_the_reviewed_ones : ParserCacheProofs.crash_sites = ParserCacheProofs.reviewed_crash_sites.
+Proof. exact ParserCacheProofs.crash_sites_are_the_reviewed_ones. Qed.
+Print Assumptions C05_crash_sites_are_the_reviewed_ones.
